@@ -163,10 +163,12 @@ def write_shapefile(
         for i, polygon in enumerate(dataset.ems.polygons):
             if polygon is None:
                 continue
+            # Values are given in field order: pyshp truncates field names to
+            # ten characters ('linear_ind'), a linear_index= keyword would match no field.
             writer.record(
-                name=f'polygon{i}',
-                linear_index=i,
-                index=json.dumps(dataset.ems.wind_index(i)),
+                f'polygon{i}',
+                i,
+                json.dumps(dataset.ems.wind_index(i)),
             )
             writer.shape(polygon.__geo_interface__)
 
